@@ -261,6 +261,7 @@ def run_c17(rep, tier, seed):
         scenarios += [
             ("worker sleeping, next timer far away", f"cfg mfs=1000000 policy=always interval={far} jitter=3/10", [], 3000),
             ("worker about to merge (between the trigger check and the merge call)", "cfg mfs=1000000 policy=always interval=40 jitter=0/1 tfrag=0/1 tdead=0 frag=0/1 dead=0 small=1099511627776", "park-merge", 3000),
+            ("worker about to merge, check interval 2.5 s (the rejected merge must not cost another interval)", "cfg mfs=1000000 policy=always interval=2500 jitter=0/1 tfrag=0/1 tdead=0 frag=0/1 dead=0 small=1099511627776", "park-merge", 900),
             ("worker syncing every 20 ms", "cfg mfs=1000000 sync=20 policy=never", [], 3000),
             ("worker merging every 30 ms and syncing every 25 ms", "cfg mfs=60 sync=25 policy=always interval=30 jitter=1/1 tfrag=0/1 tdead=0 frag=0/1 dead=0 small=1099511627776", [], 3000),
         ]
@@ -270,7 +271,7 @@ def run_c17(rep, tier, seed):
             lines += [f"t.park {BG} bg.before_merge 1"]
         lines += ["open", "put 61 3131", "put 61 3232", "put 62 3333", "del 62"]
         if special == "park-merge":
-            lines += [f"t.wait {BG} 5000"]
+            lines += [f"t.wait {BG} 8000"]
         else:
             lines += ["sleep 60"]
         i_drop = len(lines)
